@@ -1,21 +1,20 @@
 SPECIFICATION MCSpec
 CONSTANTS
-  MaxPendings = {0, 1, 2, 3}
-  MaxUpd = 7
-  MaxFaults = 1
-  MaxCrashes = 2
-  MaxCleanups = 1
-  MaxSyncs = 1
-  Kinds = {"pre"}
-  MaxCloses = 0
+  MaxPendings = {0, 2, 3}
+  MaxUpd = 4
+  MaxFaults = 0
+  MaxCrashes = 0
+  MaxCleanups = 0
+  MaxSyncs = 0
+  Kinds = {"pre", "fc"}
+  MaxCloses = 1
   MaxArchives = 0
   MaxDeferred = 0
-  RefusedAsUpdate = FALSE
+  RefusedAsUpdate = TRUE
 VIEW View
 INVARIANT CrashRecoveredCoversReported
 INVARIANT CrashRecoveredIsSomeInMemoryState
 INVARIANT CrashRecoveredNotFromTheFuture
 INVARIANT CleanupSafe
 INVARIANT RecoveredCoversReported
-INVARIANT EmitScripts
 CHECK_DEADLOCK TRUE
